@@ -263,6 +263,7 @@ func runC16(c *explore.Ctx) {
 			}
 		}
 		texts = append(texts, "type a { a : a } # c\n", "? a")
+		texts = append(texts, sourcesExtras...)
 		idx := 0
 		for _, a := range texts {
 			for _, b := range texts {
